@@ -79,7 +79,11 @@ struct ProjVis {
 		case 2: { auto&& pv = std::as_const(v).template static_array_cast<int const>(); check_addr(K, pv, m, [&](L k) { return static_cast<void const*>(&src(k)); }); break; }
 		case 3: if constexpr(D > 1) { auto&& pv = v.as_const(); check_addr(K, pv, m, [&](L k) { return static_cast<void const*>(&src(k)); }); } break;
 		case 4: if constexpr(D > 1) { auto&& pv = std::as_const(v).template const_array_cast<int>(); check_addr(K, pv, m, [&](L k) { return static_cast<void const*>(&src(k)); }); } break;
-		default: { multi::array<long, D> C(std::as_const(v)); if(tuple_to_vec(C.sizes()) != m.size) violation(K + "extents", "converted array has other extents"); for(L k = 0; k < N; ++k) if(C.data_elements()[k] != long(src(k))) violation(K + "value", "converted array differs element-wise"); break; }
+		default: { multi::array<long, D> C(std::as_const(v)); if(tuple_to_vec(C.sizes()) != m.size) violation(K + "extents", "converted array has other extents"); for(L k = 0; k < N; ++k) if(C.data_elements()[k] != long(src(k))) violation(K + "value", "converted array differs element-wise");
+			if constexpr(D >= 3) { auto&& iv = std::as_const(v).rotated().transposed().unrotated(); MV im = m_unrotated(m_transposed(m_rotated(m))); multi::array<long, D> C2(iv); multi::array<int, D> C3(iv);  // inner dimensions permuted (compact when v is)
+				if(tuple_to_vec(C2.sizes()) != im.size || tuple_to_vec(C3.sizes()) != im.size) violation(K + "inner-permuted:extents", "array from a view with permuted inner dimensions has other extents");
+				else for(L k = 0; k < N; ++k) if(C2.data_elements()[k] != long(base[im.off[std::size_t(k)]]) || C3.data_elements()[k] != base[im.off[std::size_t(k)]]) { violation(K + "inner-permuted:value", "array constructed from a view with permuted inner dimensions differs element-wise from the view"); break; } }
+			break; }
 		}
 #endif
 		}
